@@ -414,6 +414,28 @@ def generate(log=None):
         info['legendre'].append({'name': n, 'label': tr.label, 'dim': tr.dim, 'variables': tr.nv, 'nbfun': len(tr.basis),
                                  'scales(sqrt argument -> variable index)': {str(k): v for k, v in tr.scales.items()},
                                  'max_degree': max(b[0].degree() for b in tr.basis)})
+    # the multilinear cell maps F_j = sum_n node(n, j) phi_n built from the delivered basis of the mesh element
+    maps = []
+    for mname, ename in (('Quad1_map', 'ElementQuad1'), ('Hex1_map', 'ElementHex1')):
+        if ename not in translated:
+            raise TranslateError(f'{ename} not translated: cannot build the cell map')
+        tr = translated[ename]
+        d, nb = tr.dim, len(tr.basis)
+        nvm = d + nb * d
+        F = []
+        for j in range(d):
+            acc = Poly({}, nvm)
+            for n_, b in enumerate(tr.basis):
+                lifted = Poly({k + (0,) * (nvm - d): v for k, v in b[0].t.items()}, nvm)
+                acc = acc + lifted * Poly.var(d + n_ * d + j, nvm)
+            F.append(acc)
+        heavy = d == 3
+        txt = (f'Definition {mname} : list poly :=\n  {cpolys(F)}.\n'
+               f'Lemma {mname}_piola : piola_identity_ok {d}%nat {mname} = true.\nProof. vm_compute. reflexivity. Qed.\n')
+        maps.append((mname, d, heavy))
+        groups.setdefault('C09_M_' + mname, []).append((mname, txt))
+    info['cell_maps'] = [{'name': m, 'dim': d, 'variables': 'reference coordinates, then node n coordinate j at index dim + n*dim + j',
+                          'tier': 'thorough' if h else 'quick'} for m, d, h in maps]
     # ElementTriBDM1 in Q(sqrt 3)
     names_s3 = []
     trb = TranslatedBDM1()
@@ -449,6 +471,8 @@ def generate(log=None):
             forall_lemma('legendre_deriv_ok', 'deriv_ok e = true', 'legendre_elements', names_leg, 'deriv'),
             forall_lemma('legendre_dual_ok', 'duality_param_ok e = true', 'legendre_elements', names_leg, 'dualp'),
             forall_lemma('legendre_pou_ok', 'pou_ok e = true', 'legendre_elements', names_leg, 'pou'),
+            'Definition cell_maps : list (nat * list poly) :=\n  [' + '; '.join(f'({d}%nat, {m})' for m, d, _ in maps) + '].\n',
+            forall_lemma('cell_maps_piola_ok', 'piola_identity_ok (fst e) (snd e) = true', 'cell_maps', [m for m, _, _ in maps], 'piola'),
             'Definition sqrt3_elements : list elem :=\n  [' + '; '.join(f'{n}_e' for n in names_s3) + '].\n',
             forall_lemma('sqrt3_deriv_ok', 'deriv_ok e = true', 'sqrt3_elements', names_s3, 'deriv'),
             'Definition global_functionals : list gelem :=\n  [' + '; '.join(f'{n}_g' for n in names_glob) + '].\n',
